@@ -1,7 +1,7 @@
 (* C17 — pinned statements only.  Each is closed by [exact] of a lemma proved in Nexus/Proofs.v
    (Nexus/TxProofs.v for the engine model) and followed by Print Assumptions. *)
 From Coq Require Import List ZArith Bool.
-From Verif Require Import Nexus.Model Nexus.Proofs.
+From Verif Require Import Nexus.Model Nexus.Proofs Nexus.Lock gen.Gen_Nexus.
 Import ListNotations.
 Open Scope Z_scope.
 
@@ -72,6 +72,29 @@ Theorem C17_one_bump_per_statement :
     /\ (~ In id (map fst ch) -> find_e id (s_elems a) = find_e id (s_elems b)).
 Proof. exact one_bump. Qed.
 Print Assumptions C17_one_bump_per_statement.
+
+(* "never observed in part by any reader", at lock level: for any number of sessions and any interleaving of
+   their steps, a read performed under the read lock sees no half-applied statement, and a statement holding
+   the write lock is alone (Nexus/Lock.v; Common/Gate.v models a one-shot retiring gate and does not fit). *)
+Theorem C17_readers_never_observe_a_partial_statement :
+  forall s0 tr s, linit s0 -> lsteps s0 tr s -> forall b, In (LRead b) tr -> b = false.
+Proof. exact readers_never_observe_a_partial_statement. Qed.
+Print Assumptions C17_readers_never_observe_a_partial_statement.
+
+Theorem C17_writer_is_alone :
+  forall s0 tr s i m, linit s0 -> lsteps s0 tr s -> lat s i (WHeld m) ->
+    forall j p, lat s j p -> j <> i -> r_holds p = false /\ w_holds p = false.
+Proof. exact writer_is_alone. Qed.
+Print Assumptions C17_writer_is_alone.
+
+(* the lock discipline the model assumes is the one nexus.rs has: the guard is taken before, and lives across,
+   the whole execution of the command *)
+Theorem C17_generated_lock_discipline :
+  kml_holds_write_lock_across_execute = true
+  /\ kql_holds_read_lock_across_execute = true
+  /\ meta_holds_read_lock_across_execute = true.
+Proof. repeat split; reflexivity. Qed.
+Print Assumptions C17_generated_lock_discipline.
 
 Example C17_nonvacuous :
   let s0 := mkS [] [] [] 0 7 in
